@@ -199,12 +199,11 @@ fn apply_reader(s: &RState, op: ROp) -> RState {
                     } else if v.is_some() {
                         fail(format!("bytes({k}) with {avail} remaining returned {v:?} instead of None"));
                     } else {
-                        // what an over-long request consumes is unspecified: follow the real object
+                        // a plain cursor does not move when it cannot serve a request: the
+                        // octets that remain must still be readable afterwards
                         let left = Reader::len(&l.real);
-                        if left > avail {
-                            fail(format!("bytes({k}) overrun grew the reader from {avail} to {left}"));
-                        } else {
-                            l.start = l.end - left;
+                        if left != avail {
+                            fail(format!("bytes({k}) with {avail} remaining returned None but left {left} octets in the reader (a refused request must not move the cursor)"));
                         }
                     }
                 }
